@@ -132,6 +132,15 @@ CALLBACK_SCRIPTS = [
 ]
 
 
+# publication order: the background thread is stopped right after the `_is_ready = True` line was reached (whatever
+# stores precede it have run), the caller then tests readiness and reads the result
+PUBLICATION_SCRIPTS = [
+    ("1c+bg-eof", [("run", 1, "c3"), ("peer", 0), ("run", 2, "d5"), ("block", 1), ("block", 2)]),
+    ("1c+bg-eof", [("run", 1, "c3"), ("peer", 0), ("run", 2, "d4"), ("block", 1), ("block", 2)]),
+    ("1c+bg-eof", [("run", 1, "c3"), ("peer", 0), ("run", 2, "d3"), ("block", 1), ("block", 2)]),
+]
+
+
 # directed schedules with a polling thread as the receiver: the poller holds the receive lock while a caller
 # (no expiry) fails the try-lock and parks on the condition; the poller's poll times out / receives a reply
 POLLER_SCRIPTS = [
@@ -264,7 +273,7 @@ def correspondence(ctx):
         c.extra["add_callback_atomic_measured"] = atomic
         ctx.log("add_callback registration atomic w.r.t. publication (measured, Gen.Async.addCallbackAtomic): %s%s"
                 % (atomic, "" if atomic else " -> lost callbacks are counted, not flagged (C15's finding)"))
-        for name, script in POLLER_SCRIPTS + timeout_scripts(3) + CALLBACK_SCRIPTS:
+        for name, script in POLLER_SCRIPTS + timeout_scripts(3) + CALLBACK_SCRIPTS + PUBLICATION_SCRIPTS:
             ch = ss.DirectedChooser(script)
             col(ss.run_case(dict(CONFIGS[name]), ch, env))
         col.flush()
@@ -386,7 +395,7 @@ def oracle_search(ctx, corr, broken):
             f = examine(dict(CONFIGS[name]), [c for (c, _o, _c) in run.choices], False)
             if f:
                 return f
-    for name, script in POLLER_SCRIPTS:
+    for name, script in POLLER_SCRIPTS + PUBLICATION_SCRIPTS + CALLBACK_SCRIPTS:
         try:
             run = ss.run_case(dict(CONFIGS[name]), ss.DirectedChooser(script), env)
         except ss.HarnessError:
